@@ -363,11 +363,19 @@ func RunNeg(c *Ctx, w *simrt.World, stratum int64, forceKnob string, mkCfg func(
 	frag := ch.Bool(40, "frag")
 	sp := &ConnSpec{ID: f.IDI.ID, Spec: f.Spec(), CCfg: mkCfg(), Peer: r.Plan.Peer, SCfg: scfg, StdCfg: stdcfg, Payload: payload,
 		Setup: func(l *simnet.Link) { l.Frag = frag }}
-	r.O = RunConn(c, w, sp)
-	r.Obs = ObserveHellos(r.O.Link)
 	for _, p := range payload {
 		r.Sent = append(r.Sent, p...)
 	}
+	// I/O shape: small or large read buffers; sometimes the server closes right after its last
+	// echo so that its close_notify sits directly behind unread data
+	if ch.Bool(40, "small-reads") {
+		sp.CReadSize = []int{16, 64, 300}[ch.Pick(3, "read-size")]
+	}
+	if len(r.Sent) > 0 && ch.Bool(35, "server-closes-after-echo") {
+		sp.ServerCloseAfter = len(r.Sent)
+	}
+	r.O = RunConn(c, w, sp)
+	r.Obs = ObserveHellos(r.O.Link)
 	return r
 }
 
